@@ -57,6 +57,8 @@ def run(check, repo: Repo) -> None:
     _bin(check, repo, mod)
     _resample(check, repo, mod)
     _pad_crop(check, repo, mod)
+    from .c03 import calibration_setter_dtype
+    calibration_setter_dtype(check, repo, "C06-R1", "the field of view N·sampling and the physical centre are no longer conserved by bin / fourier_resample")
 
 
 # ------------------------------------------------------------------------------------- bin
